@@ -1,10 +1,10 @@
 SPECIFICATION Spec
 CONSTANTS
-  MaxClock = 5
-  MaxSnaps = 3
+  MaxClock = 3
+  MaxSnaps = 2
   MaxCheckouts = 2
-  MaxEdits = 4
-  Variant = "lt"
+  MaxEdits = 3
+  Variant = "clean-le"
   Restores = {"RestoreOld1", "RestoreOld2"}
   Emit = FALSE
 INVARIANTS Inv_Seen Inv_Time
